@@ -633,6 +633,84 @@ func (p *Program) resultRange(callee *FuncInfo) *resRange {
 	return rr
 }
 
+// resBelow: on every return the int result is a constant in [0, maxConst] or a value r with 0 <= r < P for the
+// (never reassigned) int parameter P: a helper that reduces an index into a range of P entries.
+type resBelow struct {
+	paramIdx int
+	maxConst int64
+}
+
+func (p *Program) resultBelowParam(callee *FuncInfo) *resBelow {
+	if p.resBelowCache == nil {
+		p.resBelowCache = map[*FuncInfo]*resBelow{}
+	}
+	if v, ok := p.resBelowCache[callee]; ok {
+		return v
+	}
+	p.resBelowCache[callee] = nil
+	if callee.Decl.Body == nil || callee.Obj == nil {
+		return nil
+	}
+	sig := callee.Obj.Type().(*types.Signature)
+	if sig.Results().Len() != 1 {
+		return nil
+	}
+	if b, ok := sig.Results().At(0).Type().Underlying().(*types.Basic); !ok || b.Info()&types.IsInteger == 0 {
+		return nil
+	}
+	info := callee.Pkg.TypesInfo
+	params := p.stableParams(callee)
+	g := p.GraphOf(callee)
+	facts := g.GuardFacts()
+	for pobj, pidx := range params {
+		if pidx < 0 {
+			continue
+		}
+		if b, ok := pobj.Type().Underlying().(*types.Basic); !ok || b.Kind() != types.Int {
+			continue
+		}
+		pid := ast.NewIdent(pobj.Name())
+		rb := &resBelow{paramIdx: pidx}
+		ok, nvar, n := true, 0, 0
+		inspectNoLit(callee.Decl.Body, func(x ast.Node) bool {
+			rs, isR := x.(*ast.ReturnStmt)
+			if !isR || !ok {
+				return true
+			}
+			n++
+			if len(rs.Results) != 1 {
+				ok = false
+				return true
+			}
+			e := ast.Unparen(rs.Results[0])
+			if k, isK := constInt(info, e); isK {
+				if k < 0 {
+					ok = false
+				} else if k > rb.maxConst {
+					rb.maxConst = k
+				}
+				return true
+			}
+			f, reach := facts.Before(rs)
+			if !reach {
+				return true
+			}
+			d := newDBM(g, f, nil)
+			if d.nonNeg(e) && d.leExpr(e, 1, pid, 0) {
+				nvar++
+			} else {
+				ok = false
+			}
+			return true
+		})
+		if ok && n > 0 && nvar > 0 {
+			p.resBelowCache[callee] = rb
+			return rb
+		}
+	}
+	return nil
+}
+
 func assignsTo(info *types.Info, body ast.Node, obj types.Object) bool {
 	found := false
 	ast.Inspect(body, func(n ast.Node) bool {
